@@ -5,6 +5,8 @@ CONSTANTS
   GenActs <- G_AllNode
   MaxSteps = 30
   DrainMax = 16
+  Prelude = "none"
+  GenStreams = {1, 2, 3, 4}
   UseCls = TRUE
   DrawStreams <- G_DrawStreams
   DrawSpaces <- G_DrawSpaces
@@ -25,6 +27,7 @@ CONSTANTS
   Burst = 2
   BroadcastDedup = TRUE
   FIX_PruneEmpty = TRUE
+  FIX_Recheck = TRUE
   AllowLate = TRUE
   TrackEvicted = FALSE
   AtomicCheck = FALSE
